@@ -171,8 +171,8 @@ def main(argv):
                     bad += 1
                     print("DISAGREE %s input %d: the C program %s but CSem defines a result: %s" % (cid, k, "trapped" if g else "did not run", pid[cid]["text"]))
                     continue
-                vars_ = obj(ln["vars"])
-                wr = obj(ln["wr"])
+                vars_ = {n: x for n, x in obj(ln["vars"]).items() if isinstance(x.get("v"), dict) and "l" in x["v"]}
+                wr = {key: x for key, x in obj(ln["new"]).items() if key in set(ln["wrs"])}
                 for j, o in enumerate(outs):
                     cv = int(g[j], 16)
                     if o[0] == "var":
